@@ -11,6 +11,7 @@ import (
 	"time"
 
 	infracluster "github.com/WuKongIM/WuKongIM/internal/infra/cluster"
+	"github.com/WuKongIM/WuKongIM/internal/usecase/message"
 	"github.com/WuKongIM/WuKongIM/internal/verifsim/simkit"
 	ch "github.com/WuKongIM/WuKongIM/pkg/channel"
 	channelstore "github.com/WuKongIM/WuKongIM/pkg/channel/store"
@@ -26,8 +27,10 @@ func TestVerifSim(t *testing.T) {
 			"channels.TransportClient and RegisterServiceHandlersOn with the real wire codec on every hop",
 			"pkg/channel/store memory store or MessageDB adapter over pkg/db/message on an in-memory Pebble vfs",
 			"internal/infra/cluster.ChannelMessageReader (SyncMessages, SyncMessagesBatch)",
-			"pkg/cluster.Node.ReadChannelCommitted / ReadChannelCommittedBatch / ApplyChannelRetentionBoundary on a partially constructed Node (real router table and real slot metadata DB)"},
+			"pkg/cluster.Node.ReadChannelCommitted / ReadChannelCommittedBatch / ApplyChannelRetentionBoundary on a partially constructed Node (real router table and real slot metadata DB)",
+			"pkg/cluster.Node.RunChannelRetentionGCOnce (MessageDB runs: real MessageDB channel catalog, real slot proxy metadata read, trim budget from the node config)"},
 		Stub: []string{"clusternet.Caller (simulated network: reorder, drop, response loss, isolation)",
+			"slot layout under the retention GC driver's slot proxy: one slot led by the local node over the shared metadata DB (no remote slot owner, no stale authoritative read)",
 			"slot metadata replication: one authoritative metadata history, per-node lagging view served through ChannelMetaSource; one shared metadata DB for the management path",
 			"control plane and management retention operator (tape-drawn metadata changes and boundary values)", "clients",
 			"repl_mode=pullack runs: no durable quorum log (transitional pull/ack replication); repl_mode=quorum runs use the production composition of pkg/cluster/node_defaults.go (replication.NewStoreAdapter + channels.NewQuorumPeerLink + replication.NewRuntime, QuorumLog into channels.NewService, quorum exchange gateway registered; exchanges travel through the simulated caller with the real codec)"},
@@ -74,6 +77,15 @@ type opRec struct {
 	through  uint64
 	meta     ch.Meta // applymeta ops
 	hasMeta  bool
+	pages    []syncPage // per-query pages of ChannelMessageReader reads
+	gc       gcResult   // RunChannelRetentionGCOnce result
+}
+
+// syncPage is one page the message reader adapter returned for one query.
+type syncPage struct {
+	q       message.ChannelMessageQuery
+	msgs    []readMsg
+	hasMore bool
 }
 
 type readMsg struct {
@@ -119,10 +131,15 @@ type engine struct {
 	readers      map[ch.NodeID]*infracluster.ChannelMessageReader
 	mgmt         map[ch.NodeID]mgmtNode
 	c06Logged    bool
-	acked        map[uint64]bool   // message ids acknowledged to a client
-	tainted      bool              // run ended by a C01 loss seen at the service level
-	deferred     *pendingViolation // client-path read violation with a known root cause
-	deferredMgmt *pendingViolation // management-path read violation
+	maxReq       map[ch.NodeID]uint64 // largest retention boundary any caller ever asked this node to adopt
+	lastDeleted  map[ch.NodeID]int    // rows of the channel that vanished from a node's store in the last step (retention trims)
+	acked        map[uint64]bool      // message ids acknowledged to a client
+	tainted      bool                 // run ended by a C01 loss seen at the service level
+	deferred     *pendingViolation    // client-path read violation with a known root cause
+	deferredMgmt *pendingViolation    // management-path read violation
+
+	// open catalog cycle of the retention GC driver, per node
+	gcCycles map[ch.NodeID]*gcCycle
 }
 
 // mgmtNode is the management read surface (pkg/cluster.Node in production).
@@ -168,7 +185,7 @@ func runChanSim(t *testing.T, r *simkit.Run) {
 		defer runtime.GOMAXPROCS(prev)
 	}
 	simkit.Bubble(t, r, func() {
-		e := &engine{t: t, r: r, c: c, barrierIDs: map[uint64]bool{}, acked: map[uint64]bool{}, nextMsgID: 5000}
+		e := &engine{t: t, r: r, c: c, barrierIDs: map[uint64]bool{}, acked: map[uint64]bool{}, maxReq: map[ch.NodeID]uint64{}, lastDeleted: map[ch.NodeID]int{}, gcCycles: map[ch.NodeID]*gcCycle{}, nextMsgID: 5000}
 		e.run()
 	})
 }
@@ -473,6 +490,18 @@ func (e *engine) checkStep(prev, cur map[ch.NodeID]*snap, idx int) {
 			e.adopted = true
 			r.Probe("retention.adopted")
 		}
+		e.lastDeleted[id] = 0
+		if c.ret.PhysicalRetentionThroughSeq > c.ret.LocalRetentionThroughSeq {
+			r.FailSig("physical-above-logical", "", fmt.Sprintf("node %d: physical retention %d is above the adopted logical boundary %d", id, c.ret.PhysicalRetentionThroughSeq, c.ret.LocalRetentionThroughSeq), nil)
+			return
+		}
+		if c.ret.LocalRetentionThroughSeq > p.ret.LocalRetentionThroughSeq && c.ret.LocalRetentionThroughSeq > e.maxReq[id] {
+			// every way a boundary reaches a node goes through the simulator (explicit
+			// applies, the retention GC pass with the authoritative record)
+			r.FailSig("retention-beyond-requested", "", fmt.Sprintf("node %d adopted logical retention boundary %d although the largest boundary anyone ever asked it to adopt is %d", id, c.ret.LocalRetentionThroughSeq, e.maxReq[id]),
+				map[string]any{"adopted": c.ret.LocalRetentionThroughSeq, "requested": e.maxReq[id]})
+			return
+		}
 		// deleted sequences
 		have := map[uint64]bool{}
 		for _, s := range c.present {
@@ -526,6 +555,7 @@ func (e *engine) checkStep(prev, cur map[ch.NodeID]*snap, idx int) {
 		}
 		r.Probe("trim.physical")
 		r.ProbeN("trim.deleted_messages", len(deleted))
+		e.lastDeleted[id] = len(deleted)
 		top := deleted[len(deleted)-1]
 		// most permissive honest bounds: the larger of the watermarks observed just before and just after the step
 		hw := max64(max64(p.rv.HW, c.rv.HW), max64(p.phw, c.phw))
